@@ -4,9 +4,8 @@ provider (harness/h_e2e/src/bin/E2E.rs), judged by Coq-extracted monitors that a
 
 Running a monitor on a trace is testing, not proof: the proved part is monitor soundness.
 
-This file does NOT register the components under C01/C02/C03/C06/C11/C12; it defines
-E2E_COMPONENTS for the orchestrator to attach, plus ONE temporary property id "E2E" so that
-`./check E2E` runs end to end.
+This file registers no property: it defines E2E_COMPONENTS, which tools/props_zz_attach.py attaches
+to C01 C02 C03 C04 C06 C08 C09 C10 C11 C12 C13.  tools/e2e_batch.py runs one component alone.
 """
 import registry
 
@@ -17,9 +16,10 @@ import registry
 #        n_uni, delay_ms, idle_ms, fault_until_ms, close_at_end, finish_mode,
 #        write_modes_mask (bit m: 0 send, 1 send_vectored, 2 tokio write_vectored, 3 write_all),
 #        read_modes_mask (0 receive, 1 read, 2 receive_vectored, 3 tokio read, 4 slow reader then receive_vectored),
-#        max_send_buffer_size (0 = default)]
+#        max_send_buffer_size (0 = default),
+#        max_data_drop_pm (datagrams that carry a MAX_DATA frame are dropped with this permille while faults are active)]
 # ---------------------------------------------------------------------------------------------
-STREAM_LEN = 24
+STREAM_LEN = 25
 
 
 def _stream_case(rng, profile):
@@ -76,8 +76,12 @@ def _stream_case(rng, profile):
     wmask = rng.choice([0, 0, 15, 15, 1, 2, 4, 8, 6])
     rmask = rng.choice([0, 0, 31, 31, 1, 2, 4, 8, 16, 20])
     send_buf = rng.choice([0, 0, 0, 1000, 3000, 20000])
+    md_drop = 0
+    if profile in ("lossy", "tiny") and rng.random() < 0.4:
+        md_drop = rng.choice([300, 1000])
+        fault_until = max(fault_until, rng.choice([1000, 4000]))
     return [seed, drop, dup, corrupt, jitter, max_udp, n_bidi, total, sw, cw, ms, chunk, read,
-            bh_after, bh_len, n_uni, delay, idle, fault_until, close_at_end, finish_mode, wmask, rmask, send_buf]
+            bh_after, bh_len, n_uni, delay, idle, fault_until, close_at_end, finish_mode, wmask, rmask, send_buf, md_drop]
 
 
 def gen_stream(rng):
@@ -88,30 +92,33 @@ def gen_stream(rng):
 def fixed_stream(tier):
     return [
         # plain transfer, one of each stream type
-        [1, 0, 0, 0, 0, 1500, 2, 20000, 65536, 131072, 10, 1000, 500, 0, 0, 1, 20, 10000, 0, 1, 0, 0, 0, 0],
+        [1, 0, 0, 0, 0, 1500, 2, 20000, 65536, 131072, 10, 1000, 500, 0, 0, 1, 20, 10000, 0, 1, 0, 0, 0, 0, 0],
         # stream-count credit of 1 with several streams
-        [4, 0, 0, 0, 0, 1500, 3, 100, 100000, 300000, 1, 700, 100, 0, 0, 2, 10, 5000, 0, 1, 0, 0, 0, 0],
+        [4, 0, 0, 0, 0, 1500, 3, 100, 100000, 300000, 1, 700, 100, 0, 0, 2, 10, 5000, 0, 1, 0, 0, 0, 0, 0],
         # one byte windows
-        [5, 0, 0, 0, 0, 1500, 1, 150, 1, 1, 1, 50, 10, 0, 0, 1, 5, 30000, 0, 0, 0, 0, 0, 0],
+        [5, 0, 0, 0, 0, 1500, 1, 150, 1, 1, 1, 50, 10, 0, 0, 1, 5, 30000, 0, 0, 0, 0, 0, 0, 0],
         # blackhole from the first millisecond / mid handshake / mid transfer
-        [6, 0, 0, 0, 0, 1500, 2, 50000, 65536, 131072, 10, 1000, 500, 1, 0, 1, 20, 5000, 0, 1, 0, 0, 0, 0],
-        [7, 0, 0, 0, 0, 1500, 2, 50000, 65536, 131072, 10, 1000, 500, 30, 0, 1, 20, 5000, 0, 1, 0, 0, 0, 0],
-        [8, 0, 0, 0, 0, 1500, 2, 200000, 65536, 131072, 10, 1000, 500, 150, 0, 1, 20, 3000, 0, 1, 0, 0, 0, 0],
+        [6, 0, 0, 0, 0, 1500, 2, 50000, 65536, 131072, 10, 1000, 500, 1, 0, 1, 20, 5000, 0, 1, 0, 0, 0, 0, 0],
+        [7, 0, 0, 0, 0, 1500, 2, 50000, 65536, 131072, 10, 1000, 500, 30, 0, 1, 20, 5000, 0, 1, 0, 0, 0, 0, 0],
+        [8, 0, 0, 0, 0, 1500, 2, 200000, 65536, 131072, 10, 1000, 500, 150, 0, 1, 20, 3000, 0, 1, 0, 0, 0, 0, 0],
         # heavy faults for 30 s
-        [3, 100, 100, 50, 100, 1400, 8, 100000, 20000, 50000, 3, 5000, 0, 0, 0, 3, 50, 30000, 30000, 1, 0, 0, 0, 0],
+        [3, 100, 100, 50, 100, 1400, 8, 100000, 20000, 50000, 3, 5000, 0, 0, 0, 3, 50, 30000, 30000, 1, 0, 0, 0, 0, 0],
         # known finding finish_flush_stream_never_finalized: a send half ended by finish() and then
         # flush().await is never finalized, so stream credit is never returned
-        [4, 0, 0, 0, 0, 1500, 3, 100, 100000, 300000, 1, 700, 100, 0, 0, 2, 10, 5000, 0, 1, 1, 0, 0, 0],
-        [9, 30, 0, 0, 0, 1500, 4, 5000, 65536, 131072, 2, 1000, 0, 0, 0, 0, 20, 6000, 3000, 0, 1, 0, 0, 0],
-        [10, 0, 0, 0, 0, 1350, 2, 20000, 65536, 131072, 1, 5000, 500, 0, 0, 3, 5, 4000, 0, 1, 1, 0, 0, 0],
+        [4, 0, 0, 0, 0, 1500, 3, 100, 100000, 300000, 1, 700, 100, 0, 0, 2, 10, 5000, 0, 1, 1, 0, 0, 0, 0],
+        [9, 30, 0, 0, 0, 1500, 4, 5000, 65536, 131072, 2, 1000, 0, 0, 0, 0, 20, 6000, 3000, 0, 1, 0, 0, 0, 0],
+        [10, 0, 0, 0, 0, 1350, 2, 20000, 65536, 131072, 1, 5000, 500, 0, 0, 3, 5, 4000, 0, 1, 1, 0, 0, 0, 0],
         # known finding both_windows_blocked_state_masks_stream_credit
-        [273259354617794, 0, 0, 0, 0, 1500, 1, 150, 1, 50, 3, 5000, 4096, 0, 0, 0, 10, 30000, 0, 1, 0, 0, 0, 0],
-        [207524318816640, 0, 0, 0, 0, 9000, 4, 15000, 100, 3000, 3, 100, 0, 0, 0, 1, 100, 30000, 0, 0, 0, 0, 0, 0],
+        [273259354617794, 0, 0, 0, 0, 1500, 1, 150, 1, 50, 3, 5000, 4096, 0, 0, 0, 10, 30000, 0, 1, 0, 0, 0, 0, 0],
+        [207524318816640, 0, 0, 0, 0, 9000, 4, 15000, 100, 3000, 3, 100, 0, 0, 0, 1, 100, 30000, 0, 0, 0, 0, 0, 0, 0],
         # application API glue: vectored writes under send-buffer backpressure, vectored / slow readers
-        [11, 0, 0, 0, 0, 1500, 2, 60000, 200000, 400000, 10, 5000, 500, 0, 0, 1, 10, 30000, 0, 1, 0, 4, 31, 2000],
-        [12, 0, 0, 0, 0, 1500, 3, 40000, 200000, 400000, 10, 3000, 0, 0, 0, 0, 20, 30000, 0, 1, 0, 15, 16, 3000],
-        [13, 20, 0, 0, 10, 1500, 2, 100000, 1048576, 2097152, 10, 1200, 77, 0, 0, 2, 5, 30000, 5000, 0, 0, 6, 20, 1000],
-        [14, 0, 0, 0, 0, 1500, 4, 30000, 1048576, 2097152, 10, 40000, 13, 0, 0, 0, 50, 30000, 0, 1, 0, 4, 4, 0],
+        [11, 0, 0, 0, 0, 1500, 2, 60000, 200000, 400000, 10, 5000, 500, 0, 0, 1, 10, 30000, 0, 1, 0, 4, 31, 2000, 0],
+        [12, 0, 0, 0, 0, 1500, 3, 40000, 200000, 400000, 10, 3000, 0, 0, 0, 0, 20, 30000, 0, 1, 0, 15, 16, 3000, 0],
+        [13, 20, 0, 0, 10, 1500, 2, 100000, 1048576, 2097152, 10, 1200, 77, 0, 0, 2, 5, 30000, 5000, 0, 0, 6, 20, 1000, 0],
+        [14, 0, 0, 0, 0, 1500, 4, 30000, 1048576, 2097152, 10, 40000, 13, 0, 0, 0, 50, 30000, 0, 1, 0, 4, 4, 0, 0],
+        # every datagram that carries MAX_DATA is lost for the first seconds while the sender depends on it
+        [21, 0, 0, 0, 0, 1500, 2, 60000, 20000, 30000, 10, 1000, 0, 0, 0, 0, 10, 30000, 3000, 1, 0, 0, 0, 0, 1000],
+        [22, 20, 0, 0, 10, 1400, 3, 40000, 8000, 10000, 10, 3000, 500, 0, 0, 1, 20, 30000, 5000, 1, 0, 0, 0, 0, 1000],
     ]
 
 
@@ -119,7 +126,7 @@ def valid_stream(c):
     return (len(c) == STREAM_LEN and all(v >= 0 for v in c) and c[5] >= 1200 and c[6] <= 8 and c[15] <= 3
             and c[7] <= 200000 and c[1] <= 150 and c[17] >= 2000
             and (c[14] == 0 or c[14] <= 3000) and (c[20] == 0 or c[10] >= c[6] + c[15])
-            and (c[18] <= 100000) and c[7] <= 150 * min(c[8], c[9]) + 1 and c[21] <= 15 and c[22] <= 31)
+            and (c[18] <= 100000) and c[7] <= 150 * min(c[8], c[9]) + 1 and c[21] <= 15 and c[22] <= 31 and c[24] <= 1000)
 
 
 def nontrivial_stream(case, out):
@@ -579,6 +586,64 @@ def hist_cc(cases, outs):
     return h
 
 
+# ---------------------------------------------------------------------------------------------
+# e2e_violate  (C04)
+# case: [seed, kind (1..8), after_n, n_bidi, n_uni, bytes, stream_window, conn_window, max_streams, delay_ms]
+# ---------------------------------------------------------------------------------------------
+VIOL_LEN = 10
+
+
+def gen_violate(rng):
+    return [rng.randrange(1, 1 << 48), rng.choice([1, 2, 3, 4, 5, 6, 7, 8]), rng.choice([1, 2, 5, 10, 25]),
+            rng.choice([1, 2, 4]), rng.choice([1, 2]), rng.choice([20000, 60000, 200000]),
+            rng.choice([10000, 50000, 300000]), rng.choice([20000, 100000, 1000000]),
+            rng.choice([8, 10, 50]), rng.choice([1, 5, 20, 80])]
+
+
+def fixed_violate(tier):
+    return [[5, k, 3, 2, 1, 60000, 50000, 100000, 10, 10] for k in range(1, 9)]
+
+
+def valid_violate(c):
+    return len(c) == VIOL_LEN and all(v >= 0 for v in c) and 1 <= c[1] <= 8 and c[5] <= 200000
+
+
+def nontrivial_violate(case, out):
+    return len(out) > 11 and out[2] == 1
+
+
+def hist_violate(cases, outs):
+    h = {"injected_by_kind": [0] * 9, "victim_code": {}}
+    for c, o in zip(cases, outs):
+        if o.startswith("!"):
+            continue
+        v = _parse(o)
+        if v[2] == 1:
+            h["injected_by_kind"][v[1]] += 1
+            h["victim_code"][str(v[8])] = h["victim_code"].get(str(v[8]), 0) + 1
+    return h
+
+
+def classify_violate(p):
+    """the two known C04 findings: the victim does not close at all (no transport error; the run
+    ends by idle timeout or normally) and no wrong byte was delivered"""
+    try:
+        if p.get("component") != "e2e_violate" or p["impl"].startswith("!"):
+            return None
+        v = _parse(p["impl"])
+        n = v[11]
+        flows = [v[12 + 10 * i:22 + 10 * i] for i in range(n)]
+        if v[2] != 1 or any(f[6] != -1 for f in flows) or v[7] == 2:
+            return None
+        if v[1] == 6:
+            return "reset_final_size_below_received"
+        if v[1] == 7:
+            return "wrong_direction_stream_frame_accepted"
+        return None
+    except Exception:
+        return None
+
+
 def _parse(o):
     return [(-int(t[1:], 16) if t.startswith("-") else int(t, 16)) for t in o.split()]
 
@@ -665,6 +730,13 @@ E2E_COMPONENTS = {
         "valid": valid_cc, "nontrivial": nontrivial_cc, "histogram": hist_cc,
         "classify": classify_cc,
     },
+    "e2e_violate": {
+        "name": "e2e_violate", "harness": ("h_e2e", "E2E"), "ocaml": "E2E", "model": False,
+        "gen": gen_violate, "fixed": fixed_violate, "quick": 40, "thorough": 600,
+        "shard_lines": 1, "line_timeout": 300,
+        "valid": valid_violate, "nontrivial": nontrivial_violate, "histogram": hist_violate,
+        "classify": classify_violate,
+    },
     "e2e_inject": {
         "name": "e2e_inject", "harness": ("h_e2e", "E2E"), "ocaml": "E2E", "model": False,
         "gen": gen_inject, "fixed": fixed_inject, "quick": 40, "thorough": 600,
@@ -694,45 +766,3 @@ def classify_e2e_c02(p):
 
 E2E_COMPONENTS["e2e_stream_c02"]["classify"] = classify_e2e_c02
 
-# ---------------------------------------------------------------------------------------------
-# temporary registration so that `./check E2E` runs end to end (to be removed by the orchestrator
-# when the components are attached to C01/C02/C03/C06/C11/C12)
-# ---------------------------------------------------------------------------------------------
-registry.register("E2E", {
-    "gen": ["E2E"],          # no translator family
-    "props_file": "props/E2E.v",
-    "extract_target": "extract/Ex_E2E.vo",
-    "harness": "h_e2e",
-    "harness_bin": "E2E",
-    "axioms_allowed": [],
-    "classify": classify_e2e,
-    "components": [E2E_COMPONENTS[k] for k in ("e2e_stream", "e2e_amp", "e2e_inject")],
-    "rule": "seeded simulated connections over parameter profiles (clean / lossy / tiny windows and stream credit / permanent blackhole at every phase / temporary outage); a case is non-trivial when the handshake completed and at least one stream direction exists",
-    "assumptions": [
-        "running a monitor on a recorded trace is testing, not proof; the proved part is monitor soundness (props/E2E.v)",
-        "the harness computes the per-frame comparison flags (data vs written bytes, vs first-sent bytes), the checksums and the genuine-packet set membership; the monitors take those fields as given",
-        "the TLS library's own randomness is outside the simulation's control (key material only)",
-    ],
-    "trusted_base": ["no axioms: Print Assumptions reports 'Closed under the global context' for every E2E theorem",
-                     "harness/h_e2e/src/bin/E2E.rs (trace recording), s2n-quic testing IO provider (bach executor)"],
-    "explanation": "Coq-extracted boolean monitors (the property texts of C01/C02/C03/C12, C11, C06 on integer traces) proved sound against Prop-level statements; traces come from real endpoints on the deterministic simulated network",
-})
-
-
-# developer registration of the phase-2 components (tools/props_zz_attach.py pops "E2E"):
-#   VERIF_E2E_DEV=1 ./check E2EX        (also works under tools/mutcheck)
-import os as _os
-if _os.environ.get("VERIF_E2E_DEV"):
-    def _classify_dev(p):
-        for f in (classify_pn, classify_cid, classify_cc, classify_e2e):
-            r = f(p)
-            if r:
-                return r
-        return None
-    registry.register("E2EX", {
-        "gen": ["E2E"], "props_file": "props/E2E.v", "extract_target": None,
-        "harness": "h_e2e", "harness_bin": "E2E", "axioms_allowed": [], "classify": _classify_dev,
-        "components": [E2E_COMPONENTS[k] for k in _os.environ.get("VERIF_E2E_DEV_COMPS", "e2e_pn").split(",") if k in E2E_COMPONENTS],
-        "rule": "developer run of the phase-2 end-to-end components", "assumptions": [], "trusted_base": [],
-        "explanation": "developer run",
-    })
